@@ -153,3 +153,10 @@ Lemma new_pat_packet_pinned_refuted :
   len pkt_no_room = 188 /\ new_pat_pinned pkt_no_room = Ok [] /\ num_programs_pinned [] = Panic /\
   new_pat pkt_no_room = Err E.InvalidPATLength.
 Proof. repeat split; vm_compute; reflexivity. Qed.
+
+Lemma psi_helpers_total b :
+  (exists v, PatPsi.pointer_field b = Ok v) /\ safe (PatPsi.table_id b) /\
+  safe (PatPsi.section_syntax_indicator b) /\ safe (PatPsi.private_indicator b) /\
+  (exists v, PatPsi.section_length b = Ok v).
+Proof. split; [apply pointer_field_total|]. split; [apply table_id_total|]. split; [apply section_syntax_indicator_total|].
+  split; [apply private_indicator_total|apply section_length_value]. Qed.
